@@ -17,7 +17,10 @@ class TNDyn(TNOps):
 
     # ------------------------------------------------------------------------------------------
     def pick_H_psi(self, op, need_two=False):
-        H = self.pick(op['H'], 'mpo', lambda o: o.herm)
+        # Hamiltonians with zero boundary bond labels (what every constructor produces); a Hermitian MPO whose
+        # labels carry a common non-zero offset trips the integrators' own sanity assertion (DESIGN 7.8)
+        H = self.pick(op['H'], 'mpo', lambda o: o.herm and dn.is_int_1d_array(o.ref.qD[0]) and dn.is_int_1d_array(o.ref.qD[-1])
+                      and int(o.ref.qD[0][0]) == 0 and int(o.ref.qD[-1][0]) == 0)
         if H is None:
             return None, None
         psi = self.pick(op['psi'], 'mps', lambda o: self.qd_eq(H, o) and float(np.linalg.norm(o.dense)) > 1e-6 * o.scale
@@ -154,7 +157,7 @@ class TNDyn(TNOps):
         if c08:
             n1 = float(np.linalg.norm(v1))
             self.check(abs(n1 - 1) <= DYN_TOL, 'C08', 'norm_conserved', lambda: f'|psi|={n1!r} after {n} step(s), numiter={numiter}, sites={sites}')
-            traj = psi.traj if (psi.traj and psi.traj['H'] == H.uid) else {'H': H.uid, 'e0': e_before, 'steps': 0}
+            traj = psi.traj if (psi.traj and psi.traj['H'] == (H.uid, H.version)) else {'H': (H.uid, H.version), 'e0': e_before, 'steps': 0}
             e1 = float(np.vdot(v1, M @ v1).real) / max(n1 ** 2, 1e-300)
             self.check(abs(e1 - traj['e0']) <= DYN_TOL * max(1.0, nH), 'C08', 'energy_conserved',
                        lambda: f'energy {e1!r} vs trajectory start {traj["e0"]!r} (|H|={nH:.3e}, steps so far {traj["steps"] + n}, numiter={numiter}, sites={sites})')
@@ -385,7 +388,7 @@ class TNDyn(TNOps):
         disc = float(wrel[~keep].sum())
         self.check(disc <= tol + 1e-12, P, 'discarded_within_tol', lambda: f'discarded weight {disc!r} > tol {tol!r}')
         if keep.any() and (~keep).any():
-            self.check(s_in[keep].min() >= s_in[~keep].max(), P, 'smallest_discarded', lambda: f'kept {s_in[keep].min()!r} < discarded {s_in[~keep].max()!r}')
+            self.check(s_in[keep].min() >= s_in[~keep].max() * (1 - 1e-12), P, 'smallest_discarded', lambda: f'kept {s_in[keep].min()!r} < discarded {s_in[~keep].max()!r}')
             self.probe('svd_truncated')
         if keep.any():
             nxt = disc + float(wrel[keep].min())
